@@ -12,6 +12,10 @@ Definition F1_FIXED : bool := N.eqb WRITER_COMMIT_STORES_OPSTAMP 1.
 Lemma delete_break_pinned : WRITER_DELETE_BREAK_AT_TARGET = 1.
 Proof. reflexivity. Qed.
 
+(* ... and `if self.is_alive() {` guards the body of SegmentUpdater::save_metas (EStaleSave is the identity) *)
+Lemma save_metas_guard_pinned : WRITER_SAVE_METAS_GUARDED = 1.
+Proof. reflexivity. Qed.
+
 Section Perm.
   Context {A : Type} (eqb : A -> A -> bool).
   Definition count_eqb (x : A) (l : list A) : nat := length (filter (eqb x) l).
